@@ -322,3 +322,125 @@ Proof.
   destruct (parse_schema_rec_closed f _ _ _ _ [] U E) as (d' & C & _); [intros n H; discriminate H|].
   now rewrite closed_tie, C.
 Qed.
+
+(** ---- what inlining achieves: every reference left either follows its definition or names a
+    type that is not in the table ---- *)
+Lemma closed_g_arr extra l m defined :
+  closed_g extra (JArr l) m defined =
+  match m with
+  | PSchema => ofold (map (fun j => closed_g extra j PSchema) l) defined
+  | PFields => ofold (map (fun j => closed_g extra j PField) l) defined
+  | PField => None
+  end.
+Proof. unfold closed_g. rewrite jfold_arr. destruct m; rewrite ?map_map; reflexivity. Qed.
+
+Lemma closed_g_obj extra kv m defined :
+  closed_g extra (JObj kv) m defined =
+  let sub k m d := match jget k kv with Some v => closed_g extra v m d | None => None end in
+  match m with
+  | PField => sub "type" PSchema defined
+  | PFields => None
+  | PSchema =>
+      match jget "type" kv with
+      | Some (JStr t) =>
+          let d0 := define kv t defined in
+          if String.eqb t "array" then sub "items" PSchema d0
+          else if String.eqb t "map" then sub "values" PSchema d0
+          else if String.eqb t "record" || String.eqb t "error" then
+            match jget "fields" kv with
+            | Some (JArr _) => sub "fields" PFields d0
+            | _ => None
+            end
+          else Some d0
+      | Some _ => Some defined
+      | None => None
+      end
+  end.
+Proof.
+  unfold closed_g at 1. rewrite jfold_obj. fold (closed_g extra). unfold osub. rewrite !jget_map. cbv zeta.
+  destruct m; repeat match goal with |- context [jget ?k kv] => destruct (jget k kv) end; reflexivity.
+Qed.
+
+Lemma define_jset kv k v t defined :
+  String.eqb "name" k = false -> define (jset k v kv) t defined = define kv t defined.
+Proof. intros N. unfold define. now rewrite jget_jset_neq. Qed.
+
+Section Rel.
+  Variable tbl : named.
+  Let extra := fun s => negb (jhas s tbl).
+
+  Lemma inline_list_rel rec l : forall defined ps defined',
+    (forall x d q d', rec x d = POk (q, d') -> closed_g extra q PSchema d = Some d') ->
+    inline_list rec l defined = POk (ps, defined') ->
+    ofold (map (fun j => closed_g extra j PSchema) ps) defined = Some defined'.
+  Proof.
+    induction l as [|x r IH]; intros defined ps defined' H E; cbn [inline_list] in E.
+    - injection E as <- <-. reflexivity.
+    - destruct (rec x defined) as [[p d1]| | | |] eqn:E1; cbn [pbind] in E; try discriminate E.
+      destruct (inline_list rec r d1) as [[ps' d2]| | | |] eqn:E2; cbn [pbind] in E; try discriminate E.
+      injection E as <- <-. cbn [map ofold]. rewrite (H _ _ _ _ E1). eapply IH; eauto.
+  Qed.
+
+  Lemma inline_fields_rel rec l : forall defined ps defined',
+    (forall x d q d', rec x d = POk (q, d') -> closed_g extra q PSchema d = Some d') ->
+    inline_fields rec l defined = POk (ps, defined') ->
+    ofold (map (fun j => closed_g extra j PField) ps) defined = Some defined'.
+  Proof.
+    induction l as [|x r IH]; intros defined ps defined' H E; cbn [inline_fields] in E.
+    - injection E as <- <-. reflexivity.
+    - destruct (inline_field rec x defined) as [[p d1]| | | |] eqn:E1; cbn [pbind] in E; try discriminate E.
+      destruct (inline_fields rec r d1) as [[ps' d2]| | | |] eqn:E2; cbn [pbind] in E; try discriminate E.
+      injection E as <- <-. cbn [map ofold].
+      assert (F : closed_g extra p PField defined = Some d1).
+      { unfold inline_field in E1. destruct x as [| | | | | |fkv]; try discriminate E1.
+        destruct (jget "type" fkv) as [ty|]; [|discriminate E1].
+        destruct (rec ty defined) as [[q dq]| | | |] eqn:E3; cbn [pbind] in E1; try discriminate E1.
+        injection E1 as <- <-. rewrite closed_g_obj. cbv beta iota zeta. rewrite jget_jset_eq. eauto. }
+      rewrite F. eapply IH; eauto.
+  Qed.
+
+  Theorem inline_closed_rel : forall f p defined q defined',
+    inline_rec f tbl p defined = POk (q, defined') -> closed_g extra q PSchema defined = Some defined'.
+  Proof.
+    induction f as [|f IH]; intros p defined q defined' H; [discriminate H|].
+    cbn [inline_rec] in H. destruct p as [| | | |s|l|kv]; cbn [inline_node] in H;
+      try (injection H as <- <-; reflexivity).
+    - (* name *)
+      destruct (is_prim s || mem s defined) eqn:E.
+      + injection H as <- <-. unfold closed_g. cbn [jfold]. now rewrite E.
+      + destruct (jget s tbl) as [[| | | | | |dkv]|] eqn:G; try discriminate H.
+        * eapply IH; eauto.
+        * injection H as <- <-. unfold closed_g. cbn [jfold]. unfold extra, jhas. rewrite G. cbn [negb].
+          now rewrite Bool.orb_true_r.
+    - (* list *)
+      destruct (inline_list (inline_rec f tbl) l defined) as [[ps d1]| | | |] eqn:E; cbn [pbind] in H; try discriminate H.
+      injection H as <- <-. rewrite closed_g_arr. eapply inline_list_rel; eauto.
+    - (* dict *)
+      destruct (jget "type" kv) as [[| | | |t| |]|] eqn:T; try discriminate H;
+        try (injection H as <- <-; rewrite closed_g_obj; cbv beta iota zeta; rewrite T; reflexivity).
+      destruct (String.eqb t "array") eqn:E1.
+      { destruct (jget "items" kv) as [it|] eqn:G; [|discriminate H].
+        destruct (inline_rec f tbl it (define kv t defined)) as [[p d1]| | | |] eqn:E; cbn [pbind] in H; try discriminate H.
+        injection H as <- <-. rewrite closed_g_obj. rewrite (jget_jset_neq "type") by reflexivity. rewrite T. cbv beta iota zeta.
+        rewrite define_jset by reflexivity. rewrite E1, jget_jset_eq. eauto. }
+      destruct (String.eqb t "map") eqn:E2.
+      { destruct (jget "values" kv) as [it|] eqn:G; [|discriminate H].
+        destruct (inline_rec f tbl it (define kv t defined)) as [[p d1]| | | |] eqn:E; cbn [pbind] in H; try discriminate H.
+        injection H as <- <-. rewrite closed_g_obj. rewrite (jget_jset_neq "type") by reflexivity. rewrite T. cbv beta iota zeta.
+        rewrite define_jset by reflexivity. rewrite E1, E2, jget_jset_eq. eauto. }
+      destruct (String.eqb t "record" || String.eqb t "error") eqn:E3.
+      { match type of H with pbind ?e _ = _ => destruct e as [fl| | | |] eqn:EF; cbn [pbind] in H; try discriminate H end.
+        destruct (inline_fields (inline_rec f tbl) fl (define kv t defined)) as [[fs d1]| | | |] eqn:E; cbn [pbind] in H; try discriminate H.
+        injection H as <- <-. rewrite closed_g_obj. rewrite (jget_jset_neq "type") by reflexivity. rewrite T. cbv beta iota zeta.
+        rewrite define_jset by reflexivity. rewrite E1, E2, E3, jget_jset_eq.
+        rewrite closed_g_arr. eapply inline_fields_rel; eauto. }
+      injection H as <- <-. rewrite closed_g_obj. cbv beta iota zeta. now rewrite T, E1, E2, E3.
+  Qed.
+End Rel.
+
+Theorem inline_result_closed_rel tbl p q : inline tbl p = POk q -> closed_rel tbl q = true.
+Proof.
+  unfold inline, closed_rel. intros H.
+  destruct (inline_rec (inline_fuel tbl p) tbl p []) as [[q0 d]| | | |] eqn:E; cbn [pbind] in H; try discriminate H.
+  injection H as <-. cbn [fst]. now rewrite (inline_closed_rel _ _ _ _ _ _ E).
+Qed.
